@@ -128,6 +128,36 @@ impl Property for C03 {
             "deterministic queries only (vf_kit::refsql confirms determinism on the data); floats compared with relative tolerance 1e-9".into(),
         ]
     }
+    fn known_signature(&self, case: &Case) -> Option<String> {
+        // known finding `filter-over-projection-duplicate-names`: a rule list with optimize_projections but
+        // without push_down_filter, over a query with a WHERE on top of a join
+        let risky_set = case.sets.iter().any(|sel| {
+            let (rules, _, _) = rules_for(sel);
+            rules.iter().any(|r| r.name() == "optimize_projections") && !rules.iter().any(|r| r.name() == "push_down_filter")
+        });
+        if !risky_set {
+            return None;
+        }
+        let mut where_over_join = false;
+        refsql::visit_queries(&case.sql.query, &mut |qq| {
+            fn set(e: &refsql::SetExpr, f: &mut bool) {
+                match e {
+                    refsql::SetExpr::Select(s) => {
+                        if s.where_.is_some() && matches!(s.from, Some(refsql::TableRef::Join { .. })) {
+                            *f = true
+                        }
+                    }
+                    refsql::SetExpr::SetOp { left, right, .. } => {
+                        set(left, f);
+                        set(right, f)
+                    }
+                    refsql::SetExpr::Query(_) => {}
+                }
+            }
+            set(&qq.body, &mut where_over_join);
+        });
+        if where_over_join { Some("filter-over-projection-duplicate-names".into()) } else { None }
+    }
     fn run(&self, case: &Case) -> CaseResult {
         let q = &case.sql.query;
         let sql = refsql::to_sql(q);
